@@ -586,9 +586,11 @@ def style_indices(rng, idx, shape, style):
 
 
 def indexed_view(rng, shape):
-    """None or a full-length tuple (the documented form of IndexedData views)."""
+    """None or a full-length tuple (the form `_to_original_view` translates), and - because the statement's view domain
+    ("tuples of positive-step slices possibly shorter than ndim", bare slices, Ellipsis) is stated for every dataset -
+    the shorter forms too (known finding C04-indexed-view-not-full-length)."""
     kind = rng.choice(["none", "slice_tuple_full", "slice_tuple_full", "int_slice_mix", "all_int", "index_arrays",
-                       "ext"])
+                       "ext", "slice_tuple_short", "bare_slice", "ellipsis"])
     if kind == "ext":
         return L.make_view_ext(rng, shape, rng.choice(["np_int_mix", "np_all_int", "index_arrays_same_ndim"]))
     if kind == "int_slice_mix" and len(shape) == 1:
@@ -620,6 +622,13 @@ class IndexedReader(object):
 
 def to_parent_view(idx, view):
     """Harness-side translation of a view of the indexed dataset into a view of its parent."""
+    if view is not None:
+        keep = sum(1 for i in idx if i is None)
+        view = view if isinstance(view, tuple) else (view,)
+        if any(v is Ellipsis for v in view):
+            k = [n for n, v in enumerate(view) if v is Ellipsis][0]
+            view = view[:k] + (slice(None),) * (keep - (len(view) - 1)) + view[k + 1:]
+        view = tuple(view) + (slice(None),) * (keep - len(view))
     out, j = [], 0
     for i in idx:
         if i is None:
